@@ -1,7 +1,7 @@
 (* Property C10 -- path editing has list semantics.  Statements only. *)
 From Coq Require Import List NArith Bool Arith.
 Import ListNotations.
-Require Import V.Regex V.Parse V.ParseProofs V.PathSpec V.Iter V.Push.
+Require Import V.Regex V.Parse V.ParseProofs V.PathSpec V.Splice V.Setters V.Iter V.PathQ V.Push V.PathMut V.PathMutProofs V.C10Proofs.
 Local Open Scope nat_scope.
 
 (* push appends exactly the pushed segment to the segment sequence (sequences taken with "."
@@ -13,6 +13,37 @@ Theorem C10_push_law : forall (start0 fa : bool) (p seg : str), noslash seg ->
   nodot (segs (push start0 fa p seg)) = nodot (segs p ++ [seg]).
 Proof. exact push_law. Qed.
 Print Assumptions C10_push_law.
+
+(* the same law for the INDEX-LEVEL handle (the model that is compared with the implementation after every edit):
+   under the handle invariant PInv (buffer = before ++ view ++ after, start/end delimit the view) push does not
+   panic, re-establishes the invariant with `before` and `after` untouched -- scheme, authority, query and
+   fragment of the enclosing reference live there -- and appends exactly the pushed segment *)
+Theorem C10_push_handle : forall h before v after seg, PInv h before v after -> noslash seg ->
+  exists h', pm_push h seg = Some h' /\ exists v', pm_view h' = Some v' /\ PInv h' before v' after /\
+             nodot (segs v') = nodot (segs v ++ [seg]).
+Proof. exact pm_push_law. Qed.
+Print Assumptions C10_push_handle.
+
+(* clear removes every segment and keeps the path absolute or relative as it was *)
+Theorem C10_clear_handle : forall h before v after, PInv h before v after ->
+  exists h', pm_clear h = Some h' /\ PInv h' before (clear1 v) after /\ pm_fa h' = pm_fa h /\ pm_start h' = pm_start h.
+Proof. exact pm_clear_refines. Qed.
+Print Assumptions C10_clear_handle.
+Theorem C10_clear_no_segments : forall v, segs (clear1 v) = [] /\ is_abs (clear1 v) = is_abs v.
+Proof. intros v. split; [apply clear1_segs|]. unfold clear1. destruct (is_abs v); reflexivity. Qed.
+Print Assumptions C10_clear_no_segments.
+
+(* ANY sequence of push / pop / clear through ONE handle: whenever the list-level edits of the view are defined
+   (pop's scan cannot panic on a non-empty view), the index-level handle performs them without panic, its
+   offsets stay coherent after every edit and `before`/`after` never change -- so the edits compose exactly as
+   if each had been made through a fresh handle *)
+Theorem C10_handle_sequences : forall ops h before v after, PInv h before v after ->
+  match prun1 (pm_start h =? 0) (pm_fa h) ops v with
+  | Some v' => exists h', prun0 ops h = Some h' /\ PInv h' before v' after /\ pm_view h' = Some v'
+  | None => True
+  end.
+Proof. exact handle_sequences. Qed.
+Print Assumptions C10_handle_sequences.
 
 Example C10_example : push false true [] [120]%N = [47;120]%N /\ push true false [] [98;58;99]%N = [46;47;98;58;99]%N.
 Proof. vm_compute. split; reflexivity. Qed.
